@@ -30,6 +30,7 @@ where
 {
     entries: Vec<Entry>,
     pub schema: schema::Schema<PN, VN>,
+    ordered: bool,
 }
 
 impl<PN, VN, Entry> EntryStore<PN, VN, Entry>
@@ -42,6 +43,7 @@ where
         Self {
             entries: Vec::with_capacity(size_hint.unwrap_or(1024)),
             schema,
+            ordered: false,
         }
     }
 
@@ -49,6 +51,7 @@ where
         let entry_idx = entry.get_idx();
         entry.set_idx(EntryIdx::from(self.entries.len() as u32));
         self.entries.push(entry);
+        self.ordered = false;
         entry_idx
     }
 
@@ -62,6 +65,11 @@ where
 }
 
 pub trait EntryStoreTrait {
+    /// Put the entries in their final order and give them their final index.
+    ///
+    /// All the entry stores of a pack are ordered before any of them is finalized,
+    /// as an entry may refer to the (final) index of an entry of another store.
+    fn order(&mut self) {}
     fn finalize(self: Box<Self>) -> Box<dyn WritableTell>;
 }
 
@@ -71,7 +79,10 @@ where
     VN: VariantName + std::fmt::Debug + Sync + 'static,
     Entry: FullEntryTrait<PN, VN> + Send + 'static,
 {
-    fn finalize(mut self: Box<Self>) -> Box<dyn WritableTell> {
+    fn order(&mut self) {
+        if self.ordered {
+            return;
+        }
         set_entry_idx(&mut self.entries);
         if let Some(keys) = &self.schema.sort_keys {
             let compare = |a: &Entry, b: &Entry| a.compare(&keys, b);
@@ -92,6 +103,11 @@ where
                 }
             }
         }
+        self.ordered = true;
+    }
+
+    fn finalize(mut self: Box<Self>) -> Box<dyn WritableTell> {
+        self.order();
 
         for entry in &mut self.entries {
             self.schema.process(entry);
